@@ -48,6 +48,8 @@ class Transaction(transaction.Transaction):
 
     @raw_payee.setter
     def __raw_payee(self, value: Optional[EscapedString]) -> None:
+        if value is not None:
+            internal.check_detachable([value])  # refuse before adding the implied narration
         if value is not None and self.raw_narration is None:
             self.raw_narration = EscapedString.from_value('') 
         self.raw_string1 = value
